@@ -81,7 +81,10 @@ MALFORMED = ['malformed', 'three,-1:5', '{cell},', '{cell},0:4,0:4,0:4,0:4',
              ',0:3', '{cell},0:3,', '{cell},0:3;0:3', '{cell},0:3,0-3',
              # spellings Python's int() accepts, but which are not integers
              '{cell},0:1_0', '{cell},0:\u0661', '{cell},-1_0:0',
-             '{cell}_0,0:3', '{cell},0__1:3']
+             '{cell}_0,0:3', '{cell},0__1:3',
+             # the valid option of the deck with one bound respelled
+             'RESPELL-UNDERSCORE', 'RESPELL-DIGITS', 'RESPELL-UNDERSCORE',
+             'RESPELL-CELL']
 
 
 def plan(tier):
@@ -243,6 +246,30 @@ def build_pair(case):
                 case.index * 7 + rng.randrange(len(MALFORMED))
             text = MALFORMED[pick % len(MALFORMED)].replace('{cell}',
                                                        str(gen_lat.LAT_CELL))
+            if text.startswith('RESPELL'):
+                # the numbers stay what they are for Python's int(): the
+                # option has the right cell and the right number of ranges
+                head, *rngs = bad.cli[pos + 1].split(',')
+                if text == 'RESPELL-CELL':
+                    head = head[0] + '_' + head[1:]
+                else:
+                    k = rng.randrange(len(rngs))
+                    lo, hi = rngs[k].split(':')
+                    tgt = rng.choice(['lo', 'hi'])
+                    val = lo if tgt == 'lo' else hi
+                    sign = '-' if val.startswith('-') else ''
+                    digits = val.lstrip('+-')
+                    if text == 'RESPELL-UNDERSCORE':
+                        digits = '0_' + digits if len(digits) == 1 else \
+                            digits[0] + '_' + digits[1:]
+                    else:
+                        digits = ''.join(chr(0x0660 + int(ch))
+                                         for ch in digits)
+                    val = sign + digits
+                    rngs[k] = f'{val}:{hi}' if tgt == 'lo' else f'{lo}:{val}'
+                text = ','.join([head] + rngs)
+                bad.cli[pos + 1] = text
+                return deck, bad, f'--lattice {text!r}'
             if rng.random() < 0.5:
                 bad.cli[pos + 1] = text
             else:
